@@ -6,6 +6,6 @@ cd /verif
 git -C /repo apply "$P" || { echo "patch does not apply"; exit 3; }
 trap 'git -C /repo checkout -- . ' EXIT
 for c in "$@"; do
-  ./check "$c" "${TIER:-quick}" 2>&1 | grep -E "VIOLATION|KNOWN-FINDING|INCONCLUSIVE|signature=|evaluations=" | cut -c1-400
+  ./check "$c" "${TIER:-quick}" 2>&1 | grep -E "VIOLATION|INCONCLUSIVE|signature=|evaluations=" | cut -c1-400
   echo "exit=${PIPESTATUS[0]}"
 done
